@@ -7,7 +7,7 @@ C11 line-protocol driver:  `lake env lean --run Sc3Verif/C11/Driver.lean < lines
   x <external op>               run one external operation to completion, print one line:
         <result>|<log>|<snapshot>
 
-Tokens.  values: N  n<int>  bT bF  H  t<r>  U.   acts: `y v`, `raise`, `rstop`, `yar v`, `ay v`,
+Tokens.  values: N  n<int>  bT bF  H  t<r>  U.   acts: `y v`, `raise`, `raiseb K|S|G|C` (KeyboardInterrupt / SystemExit / GeneratorExit / a custom BaseException), `rstop`, `yar v`, `ay v`,
 `nest r c|p|e v`, `rop r play|pause|resume|stop|reset`, `wait c`, `sig c`, `unh c`,
 `test c T|F`, `fvget f` (= waitFv f ; readFv f), `fvset f v`, `here`.
 external ops: `next r v`, `tick`, `rop r o`, `sig c`, `unh c`, `test c T|F`, `fvset f v`.
@@ -30,6 +30,10 @@ def fmtExc : Exc → String
   | .runtime => "RuntimeError"
   | .routine => "RoutineException"
   | .generic => "Exception"
+  | .keyboard => "KeyboardInterrupt"
+  | .sysexit => "SystemExit"
+  | .genexit => "GeneratorExit"
+  | .custombase => "BaseBoom"
 
 def fmtRes : Res → String
   | .val v => "v:" ++ fmtVal v
@@ -102,6 +106,10 @@ def parseAct (ws : List String) : Option (List Act) :=
   match ws with
   | ["y", v] => do some [.yield (← parseVal v)]
   | ["raise"] => some [.raise]
+  | ["raiseb", "K"] => some [.raiseB .keyboard]
+  | ["raiseb", "S"] => some [.raiseB .sysexit]
+  | ["raiseb", "G"] => some [.raiseB .genexit]
+  | ["raiseb", "C"] => some [.raiseB .custombase]
   | ["rstop"] => some [.raiseStop]
   | ["yar", v] => do some [.yar (← parseVal v)]
   | ["ay", v] => do some [.ay (← parseVal v)]
